@@ -142,4 +142,4 @@ Qed.
 Lemma writes_get_eacces h pr ss hw : In h [HWriteDB; HWriteJournal; HWriteWAL] -> answer_of h false pr ss hw = AAccess.
 Proof. cbn. intros [<-|[<-|[<-|[]]]]; reflexivity. Qed.
 Lemma nothing_that_changes_succeeds h ss hw : changes_database h = true -> answer_of h false false ss hw <> AOk.
-Proof. destruct h; cbn; try discriminate; intros _; discriminate. Qed.
+Proof. destruct h, hw; cbn; try discriminate; intros _; discriminate. Qed.
